@@ -101,6 +101,8 @@ int (*env_alloc_hook)(long k);
 #define LIVE_BITS 18
 #define LIVE_N (1u << LIVE_BITS)
 static void *live_tab[LIVE_N];
+static void *live_site[LIVE_N];
+static void *cur_site;
 static long live_cnt;
 #define TOMB ((void *) 1)
 
@@ -118,6 +120,7 @@ static void live_add(void *p)
         if (live_tab[i] == NULL || live_tab[i] == TOMB)
         {
             live_tab[i] = p;
+            live_site[i] = cur_site;
             live_cnt++;
             return;
         }
@@ -146,6 +149,11 @@ static int live_del(void *p)
 long env_live(void) { return live_cnt; }
 void env_live_reset(void) { memset(live_tab, 0, sizeof(live_tab)); live_cnt = 0; }
 void env_track(int on) { tracking = on; }
+/* harness-own allocations: never tracked, never failed */
+void *h_malloc(size_t n) { return __real_malloc(n); }
+void *h_realloc(void *p, size_t n) { return __real_realloc(p, n); }
+/* allocation site (return address of the psMalloc caller) of the i-th live block, for leak reports */
+
 
 static int should_fail(void)
 {
@@ -169,9 +177,24 @@ static int should_fail(void)
     return fail;
 }
 
+int env_live_sites(void **sites, int max)
+{
+    unsigned i;
+    int n = 0;
+    for (i = 0; i < LIVE_N && n < max; i++)
+    {
+        if (live_tab[i] != NULL && live_tab[i] != TOMB)
+        {
+            sites[n++] = live_site[i];
+        }
+    }
+    return n;
+}
+
 void *__wrap_malloc(size_t n)
 {
     void *p;
+    cur_site = __builtin_return_address(0);
     if (!tracking)
     {
         return __real_malloc(n);
@@ -190,6 +213,7 @@ void *__wrap_malloc(size_t n)
 void *__wrap_calloc(size_t a, size_t b)
 {
     void *p;
+    cur_site = __builtin_return_address(0);
     if (!tracking)
     {
         return __real_calloc(a, b);
@@ -209,6 +233,7 @@ void *__wrap_realloc(void *o, size_t n)
 {
     void *p;
     int was;
+    cur_site = __builtin_return_address(0);
     if (!tracking)
     {
         if (o && live_cnt)
